@@ -12,4 +12,6 @@ MCTUsers == @TUSERS@
 MCPreT == @PRET@
 MCTracerOf == @TRACEROF@
 MCXKinds == @XKINDS@
+MCScript == @SCRIPT@
+MCKept == @KEPT@
 =============================================================================
